@@ -1,14 +1,17 @@
 package noderun
 
 import (
+	"bufio"
 	"bytes"
 	"context"
 	"encoding/json"
 	"fmt"
+	"io"
 	"os"
 	"os/exec"
 	"path/filepath"
 	"strings"
+	"sync"
 	"time"
 )
 
@@ -50,6 +53,115 @@ func (r *FileRun) Trace() string {
 		}
 	}
 	return sb.String()
+}
+
+// FileWorker is a persistent runner process ("runner.cjs --serve") that executes many plans one after
+// the other. Every plan must use files in its own fresh directory.
+type FileWorker struct {
+	mu    sync.Mutex
+	node  string
+	cmd   *exec.Cmd
+	in    io.WriteCloser
+	out   *bufio.Reader
+	calls int
+}
+
+// NewFileWorker creates a worker for the given node binary ("" = default). The process starts lazily.
+func NewFileWorker(node string) *FileWorker {
+	if node == "" {
+		node = NodePath()
+	}
+	return &FileWorker{node: node}
+}
+
+func (w *FileWorker) stop() {
+	if w.cmd != nil && w.cmd.Process != nil {
+		w.in.Close()
+		w.cmd.Process.Kill()
+		w.cmd.Wait()
+	}
+	w.cmd = nil
+}
+
+// Close stops the process.
+func (w *FileWorker) Close() {
+	w.mu.Lock()
+	defer w.mu.Unlock()
+	w.stop()
+}
+
+func (w *FileWorker) start() error {
+	if w.node == "" {
+		return fmt.Errorf("%w: node not found", ErrInfra)
+	}
+	cmd := exec.Command(w.node, "--no-warnings", "--stack-size=2000", filepath.Join(HarnessDir(), "node", "runner.cjs"), "--serve")
+	cmd.Stderr = io.Discard
+	in, err := cmd.StdinPipe()
+	if err != nil {
+		return err
+	}
+	out, err := cmd.StdoutPipe()
+	if err != nil {
+		return err
+	}
+	if err := cmd.Start(); err != nil {
+		return fmt.Errorf("%w: %v", ErrInfra, err)
+	}
+	w.cmd, w.in, w.out, w.calls = cmd, in, bufio.NewReaderSize(out, 1<<20), 0
+	return nil
+}
+
+// Run executes one plan. A timeout (60 s) yields TimedOut and restarts the process.
+func (w *FileWorker) Run(steps []Step) (*FileRun, error) {
+	w.mu.Lock()
+	defer w.mu.Unlock()
+	plan, _ := json.Marshal(map[string]interface{}{"steps": steps})
+	plan = append(plan, '\n')
+	var last error
+	for attempt := 0; attempt < 2; attempt++ {
+		if w.cmd == nil || w.calls >= 150 {
+			w.stop()
+			if err := w.start(); err != nil {
+				return nil, err
+			}
+		}
+		w.calls++
+		type res struct {
+			line []byte
+			err  error
+		}
+		ch := make(chan res, 1)
+		go func() {
+			if _, err := w.in.Write(plan); err != nil {
+				ch <- res{nil, err}
+				return
+			}
+			l, err := w.out.ReadBytes('\n')
+			ch <- res{l, err}
+		}()
+		select {
+		case r := <-ch:
+			if r.err != nil {
+				last = r.err
+				w.stop()
+				continue
+			}
+			var fr FileRun
+			if err := json.Unmarshal(r.line, &fr); err != nil {
+				last = err
+				w.stop()
+				continue
+			}
+			return &fr, nil
+		case <-time.After(60 * time.Second):
+			w.stop()
+			if attempt == 1 {
+				return &FileRun{TimedOut: true}, nil
+			}
+			last = fmt.Errorf("runner timed out")
+		}
+	}
+	return nil, fmt.Errorf("%w: %v", ErrInfra, last)
 }
 
 // RunFiles executes the steps in one fresh node process (node = "" for the default binary) with cwd dir.
